@@ -448,7 +448,8 @@ class Template(DirectiveFactory):
                     basedir = os.path.dirname(self.filename)
             else:
                 basedir = '.'
-            self.loader = TemplateLoader([os.path.abspath(basedir)])
+            self.loader = TemplateLoader([os.path.abspath(basedir)],
+                                         allow_exec=self.allow_exec)
 
     @property
     def stream(self):
